@@ -119,8 +119,9 @@ def enc_cases(draw, tier, generated):
     codec = draw(gen_iso.codec_strategy(tier))
     hexbm = draw(st.booleans())
     config = draw(gen_iso.configs()) if generated else PACKAGED
-    msg = draw(gen_iso.messages(config, codec, exact=False, pds_mode='keys', typed_as_str=True,
-                                pds_big=draw(st.sampled_from([False, False, False, True]))))     # sets that spill over several carriers
+    # PDS sets stay small here (one carrier): how a larger set is divided among the carriers is C12's subject and admits
+    # more than one answer, so an exact comparison of bytes would demand more than this statement says
+    msg = draw(gen_iso.messages(config, codec, exact=False, pds_mode='keys', typed_as_str=True))
     # absent markers: must not set a bit
     unused = [b for b in config if 'DE' + b not in msg and config[b].get('field_processor') != 'PDS']
     for b in draw(st.lists(st.sampled_from(unused), max_size=3, unique=True)) if unused else []:
